@@ -1,2 +1,3 @@
 pub mod bytes;
+pub mod hashes;
 pub mod words;
